@@ -39,6 +39,9 @@ def translate():
     if 'b"\\n\\0"' not in wr:
         fails.append('write_requests_to_file no longer terminates every record with b"\\n\\0"')
     par = open(C.os.path.join(vlib.REPO, "command/src/parser.rs")).read()
+    req = open(C.os.path.join(vlib.REPO, "bin/src/command/requests.rs")).read()
+    if not re.search(r"std::cmp::max\(\s*200_000,\s*\(server\.config\.max_command_buffer_size as usize\)\.saturating_mul\(2\),?\s*\)", req) or "Buffer::with_capacity(buffer_capacity)" not in req:
+        fails.append("bin load_state no longer sizes its buffer max(200000, 2*max_command_buffer_size) (the driver replicates that loop)")
     flat = re.sub(r"\s+", "", par)
     want = 'many0(nom::combinator::complete(terminated(map_res(is_not("\\0"),parse_one_request),char(' + "'\\0'" + '),)))'
     if want not in flat:
@@ -175,8 +178,8 @@ LEVEL_TEXT = ("Machine-checked proof (Coq 8.16 + std++) over the executable Conf
               "the state) and compared with the extracted model's verdict; the property's oracle is evaluated on the "
               "implementation.")
 LEVEL_NOTE = ("Size ceilings (not modelled, probed on the real code on every run): the protobuf bootstrap blob travels through a "
-              "temporary file, not through the command channel, so it has no ceiling; open boundary findings: a saved JSON record "
-              "above the 200000-byte buffer of the load_state loop cannot be loaded back, and a request within |worker id| bytes of "
+              "temporary file, not through the command channel, so it has no ceiling; a saved JSON record above the former 200000-byte buffer of the load_state loop could not be "
+              "loaded back (fixed: buffer sized from max_command_buffer_size); open boundary finding: a request within |worker id| bytes of "
               "max_command_buffer_size fits the client channel and the state but not the worker channel. State-file framing modelled and proved (round trip for every list, behaviour on a cut last record and on an "
               "undecodable record), tied to the real nom parser on every run (framed numbers incl. garbage / cuts against the "
               "extracted model; the real state file cut at every point against the expected complete-record count); SAVE ids "
